@@ -276,6 +276,13 @@ theorem c11_key_roundtrip (s : Str) (rest : List Char) :
     parseJStr (jsonEscape s ++ '"' :: rest) = some (s, rest) :=
   parseJStr_jsonEscape s rest
 
+/-- two different dictionary keys never share an escaped form (no two entries of a `djson` object collide or merge) -/
+theorem c11_key_injective (s t : Str) (h : jsonEscape s = jsonEscape t) : s = t := by
+  have hs := c11_key_roundtrip s []
+  have ht := c11_key_roundtrip t []
+  rw [h, ht] at hs
+  simpa using hs.symm
+
 example : jsonEscape ['a', '"', 'b', '\\', '\n', Char.ofNat 233, Char.ofNat 0x1D11E] =
     "a\\\"b\\\\\\n\\u00e9\\ud834\\udd1e".toList := by decide
 
@@ -467,4 +474,4 @@ example :
 
 end Liquer.C11
 
--- OBLIGATIONS: Liquer.C11.c11_dispatch Liquer.C11.c11_mime Liquer.C11.c11_roundtrip_generic Liquer.C11.c11_roundtrip Liquer.C11.c11_copy_dispatch Liquer.C11.c11_text_codec_law Liquer.C11.c11_bytes_codec_law Liquer.C11.c11_text_decode_exact Liquer.C11.c11_own_roundtrip Liquer.C11.c11_own_copy Liquer.C11.c11_key_roundtrip Liquer.C11.c11_djson Liquer.C11.c11_djson_elements Liquer.C11.c11_djson_full Liquer.C11.c11_register_selects Liquer.C11.c11_register_frame Liquer.C11.c11_register_history
+-- OBLIGATIONS: Liquer.C11.c11_dispatch Liquer.C11.c11_mime Liquer.C11.c11_roundtrip_generic Liquer.C11.c11_roundtrip Liquer.C11.c11_copy_dispatch Liquer.C11.c11_text_codec_law Liquer.C11.c11_bytes_codec_law Liquer.C11.c11_text_decode_exact Liquer.C11.c11_own_roundtrip Liquer.C11.c11_own_copy Liquer.C11.c11_key_roundtrip Liquer.C11.c11_djson Liquer.C11.c11_djson_elements Liquer.C11.c11_djson_full Liquer.C11.c11_register_selects Liquer.C11.c11_register_frame Liquer.C11.c11_register_history Liquer.C11.c11_key_injective
